@@ -273,3 +273,23 @@ Theorem C13_builtins_host_free_refuted :
                                       (s "println", [s "fmt.Fprintf"; s "n.interp.stdout"])] |} = false.
 Proof. exact builtins_host_free_refuted. Qed.
 Print Assumptions C13_builtins_host_free_refuted.
+
+(* ------------------------------------------------------------------ closed world; command defaults *)
+
+(** Every callee of every replacement of stdlib/restricted.go is an allowed forward or another
+    replacement (regenerated): a helper defined elsewhere voids the judgement by callees. *)
+Theorem C13_replacements_closed : replacements_closed live = true.
+Proof. exact replacements_closed_live. Qed.
+Print Assumptions C13_replacements_closed.
+
+(** cmd/yaegi run and test: the six defaults are strconv.ParseBool(os.Getenv("YAEGI_...")) (regenerated),
+    and then, for every value of the variable and every flag, the opt-in set is loaded exactly when an
+    explicit flag says so or the variable holds a ParseBool-true value. *)
+Theorem C13_cli_env_defaults : cli_defaults_parsebool sb_cli_env_defaults = true.
+Proof. exact cli_defaults_live. Qed.
+Print Assumptions C13_cli_env_defaults.
+
+Theorem C13_cli_on_full :
+  forall rows value flagv, cli_defaults_parsebool rows = true -> y_cli_on rows value flagv = g_cli_on value flagv.
+Proof. exact cli_on_agrees. Qed.
+Print Assumptions C13_cli_on_full.
